@@ -8,6 +8,7 @@ import (
 	"strings"
 
 	"github.com/rkosegi/yaml-toolkit/pipeline"
+	"gopkg.in/yaml.v3"
 )
 
 func leafAct(name string, ops ...pOp) *pAct { return &pAct{Name: name, Ops: ops} }
@@ -160,6 +161,18 @@ func c14ForEachContainer(r *rand.Rand) Case {
 func c14Call(r *rand.Rand) Case {
 	data := map[string]any{"flag": "yes", "cfg": map[string]any{"keep": "me", "sub": map[string]any{"x": 1}}}
 	ap := []string{"", "myargs", "cfg.args", "p.q.r"}[r.Intn(4)]
+	// the arguments path may be a template: it is rendered against the data when the call starts, and
+	// the arguments are removed again from that very (rendered) path
+	apTmpl := ""
+	if r.Intn(4) == 0 {
+		data["argskey"] = "dyn"
+		switch r.Intn(2) {
+		case 0:
+			ap, apTmpl = "dyn", "{{ .argskey }}"
+		default:
+			ap, apTmpl = "tmp.dyn", "tmp.{{ .argskey }}"
+		}
+	}
 	callee := &pAct{Name: "callee"}
 	readPath := "args"
 	if ap != "" {
@@ -195,10 +208,10 @@ func c14Call(r *rand.Rand) Case {
 			data[readPath] = map[string]any{"x": "stale", "z": 1}
 		}
 	}
-	add(pOp{Kind: "call", Name: name, ArgsPath: ap, Args: firstArgs})
+	add(pOp{Kind: "call", Name: name, ArgsPath: ap, ArgsPathTmpl: apTmpl, Args: firstArgs})
 	add(pOp{Kind: "log", Tmpl: []tpart{{Lit: "after call"}}})
 	if r.Intn(3) == 0 {
-		add(pOp{Kind: "call", Name: name, ArgsPath: ap, Args: litArgs(map[string]string{"x": "2"})})
+		add(pOp{Kind: "call", Name: name, ArgsPath: ap, ArgsPathTmpl: apTmpl, Args: litArgs(map[string]string{"x": "2"})})
 	}
 	c := execCase("call", root, data, strings.Contains(ap, "."))
 	if d, ok := c.Desc.(map[string]any); ok {
@@ -325,8 +338,104 @@ func c14Nested(r *rand.Rand) Case {
 	if r.Intn(2) == 0 { // the inner forEach directly among the outer body's operations
 		outerBody = &pAct{Name: "ob", Ops: []pOp{mk(iv, []string{"x", "y"}, innerBody), {Kind: "log", Tmpl: []tpart{{Lit: "after-inner="}, {Var: ov}}}}}
 	}
+	if r.Intn(3) == 0 {
+		// a guarded step of the inner body reads what an earlier step of that body has just written: the guard
+		// is evaluated when the step is about to run, not when the inner forEach is cloned for the outer item
+		guardedBody := &pAct{Name: "ib", Children: []*pAct{
+			{Name: "k1", Order: 1, Ops: []pOp{{Kind: "set", Data: map[string]any{"cnt": 5}}}},
+			{Name: "k2", Order: 2, When: pCond{Kind: "lt", K: "cnt", N: 3}, Ops: []pOp{{Kind: "trace", ID: "guarded-step-ran"}}},
+			{Name: "k3", Order: 3, When: pCond{Kind: "lt", K: "cnt", N: 9}, Ops: []pOp{{Kind: "trace", ID: "open-step-ran"}}},
+		}}
+		outerBody = &pAct{Name: "ob", Ops: []pOp{mk(iv, []string{"x", "y"}, guardedBody)}}
+	}
 	root := &pAct{Name: "r", Ops: []pOp{mk(ov, []string{"a", "b", "c"}[:1+r.Intn(3)], outerBody)}}
 	return execCase("foreach-nested", root, data, true)
+}
+
+// the operations of a forEach body run one after the other, each seeing what the earlier ones of the
+// same item have written: a template operation stores the item, the log operation after it reads it
+func c14BodyOrder(r *rand.Rand) Case {
+	data := map[string]any{"flag": "yes"}
+	n := 2 + r.Intn(3)
+	var items []string
+	for i := 0; i < n; i++ {
+		items = append(items, fmt.Sprintf("svc-%d", i))
+	}
+	body := &pAct{Name: "body", Ops: []pOp{
+		{Kind: "template", Path: "cur", Tmpl: []tpart{{Lit: "<"}, {Var: "it"}, {Lit: ">"}}},
+		{Kind: "log", Tmpl: []tpart{{Lit: "cur="}, {Var: "cur"}}},
+	}}
+	root := &pAct{Name: "r", Ops: []pOp{{Kind: "foreach", Var: "it", Items: items, Body: body}}}
+	c := execCase("foreach-body-order", root, data, true)
+	if d, ok := c.Desc.(map[string]any); ok {
+		if evs, ok := d["events"].([]string); ok {
+			var seen, want []string
+			for _, e := range evs {
+				if strings.HasPrefix(e, "L:cur=") {
+					seen = append(seen, strings.TrimPrefix(e, "L:cur="))
+				}
+			}
+			for _, it := range items {
+				want = append(want, "<"+it+">")
+			}
+			if !reflect.DeepEqual(seen, want) {
+				c.Fail = append(c.Fail, fmt.Sprintf("the log operation after the template operation saw %v, expected %v", seen, want))
+			}
+		}
+	}
+	return c
+}
+
+// a forEach whose item is given by reference, inside the body of another forEach that changes the
+// referenced leaf per item: the reference is resolved every time the inner forEach runs (Go side only)
+func c14ForEachRef(r *rand.Rand) Case {
+	n := 2 + r.Intn(3)
+	var items []any
+	var want []string
+	for i := 0; i < n; i++ {
+		items = append(items, fmt.Sprintf("o%d", i))
+		want = append(want, fmt.Sprintf("L:in=o%d", i))
+	}
+	form := r.Intn(2)
+	// (observed through a template operation: its payload is rendered when it runs, a log message already when the outer body is cloned)
+	inner := map[string]any{"var": "w", "action": map[string]any{"template": map[string]any{"template": "{{ .acc }}[{{ .w }}]", "path": "acc"}}}
+	data := map[string]any{"lists": map[string]any{}}
+	defer func() { _ = data }()
+	if form == 0 {
+		inner["item"] = []any{map[string]any{"ref": "it"}}
+	} else { // query by reference: the referenced leaf names the list to walk
+		inner["query"] = map[string]any{"ref": "it"}
+		lists := map[string]any{}
+		for i := 0; i < n; i++ {
+			lists[fmt.Sprintf("o%d", i)] = []any{fmt.Sprintf("o%d", i)}
+		}
+		data = lists
+	}
+	data["acc"] = ""
+	tree := map[string]any{"forEach": map[string]any{"item": items, "var": "it", "action": map[string]any{"forEach": inner}}}
+	bs, _ := yaml.Marshal(tree)
+	var spec pipeline.ActionSpec
+	var fail []string
+	if err := yaml.Unmarshal(bs, &spec); err != nil {
+		return Case{Kind: "foreach-ref", Fail: []string{"tree does not decode: " + err.Error()}, Key: fmt.Sprint("fer", n, form)}
+	}
+	l := &evListener{}
+	d := anyToContainer(data)
+	var err error
+	if pn := guard(func() { err = pipeline.New(pipeline.WithListener(l), pipeline.WithData(d)).Execute(spec) }); pn != "" || err != nil {
+		fail = append(fail, fmt.Sprintf("forEach by reference failed: %v %s", err, pn))
+	}
+	wantAcc := ""
+	for i := 0; i < n; i++ {
+		wantAcc += fmt.Sprintf("[o%d]", i)
+	}
+	fin, _ := nodeToAny(d).(map[string]any)
+	seen := fmt.Sprint(fin["acc"])
+	if seen != wantAcc {
+		fail = append(fail, fmt.Sprintf("inner forEach by reference visited %v, expected %v", seen, wantAcc))
+	}
+	_ = want
+	return Case{Kind: "foreach-ref", Desc: map[string]any{"yaml": string(bs), "visited": seen}, Fail: fail, Nontrivial: true, Key: fmt.Sprint("fer", n, form)}
 }
 
 // counter loops: init, (test, body, post)^n, test
@@ -472,7 +581,7 @@ func c14Loop(r *rand.Rand) Case {
 func init() {
 	register(&Prop{
 		ID:   "C14",
-		Rule: "kinds: foreach (literal items / list query / leaf query / unresolved query; variable name default or custom; body = log of the variable + optional trace/set + failure at one chosen item through a guarded child step or always; body's own when ignored), foreach-container (each key exactly once, any order; Go side only), call (define then call with single-key, default and dotted argsPath incl. paths next to existing data; undefined callee; same name defined twice; failing callee; second call; literal and templated arguments incl. a nested map, read back inside the callee), call-in-loop (a call in a forEach body, once or twice per item with the data changed in between: top-level and nested arguments must be rendered anew every time), literal items incl. the empty string, foreach-nested (a forEach in a forEach body, default and custom variable names on either level), define-then-call-later (two runs on one executor: a rejected second define must not replace the first), loop (counter loops with bounds 0-5 whose body and post-action log the counter, post increments it; body failing at i=0; loops whose test is false at once; a stale counter in the data before init; init that puts the counter beyond the bound). Observables: full event sequence, error, final data vs the Coq interpreter; Go side: variable / arguments absent afterwards, unrelated data undisturbed, items x body in order up to the failure, init,(test,body,post)^n,test. Non-trivial: failure at an inner item / dotted argsPath / >= 2 iterations. Distinct by Gallina term. Calls that pass nothing (with stale user data at the arguments path), a callee called without arguments from inside another callable, and (Go side only) counting loops of 999-2048 iterations.",
+		Rule: "kinds: foreach (literal items / list query / leaf query / unresolved query; variable name default or custom; body = log of the variable + optional trace/set + failure at one chosen item through a guarded child step or always; body's own when ignored), foreach-container (each key exactly once, any order; Go side only), call (define then call with single-key, default and dotted argsPath incl. paths next to existing data; undefined callee; same name defined twice; failing callee; second call; literal and templated arguments incl. a nested map, read back inside the callee), call-in-loop (a call in a forEach body, once or twice per item with the data changed in between: top-level and nested arguments must be rendered anew every time), literal items incl. the empty string, foreach-nested (a forEach in a forEach body, default and custom variable names on either level), define-then-call-later (two runs on one executor: a rejected second define must not replace the first), loop (counter loops with bounds 0-5 whose body and post-action log the counter, post increments it; body failing at i=0; loops whose test is false at once; a stale counter in the data before init; init that puts the counter beyond the bound). Observables: full event sequence, error, final data vs the Coq interpreter; Go side: variable / arguments absent afterwards, unrelated data undisturbed, items x body in order up to the failure, init,(test,body,post)^n,test. Non-trivial: failure at an inner item / dotted argsPath / >= 2 iterations. Distinct by Gallina term. Calls that pass nothing (with stale user data at the arguments path), a callee called without arguments from inside another callable, and (Go side only) counting loops of 999-2048 iterations. Templated argument paths; guarded steps reading what an earlier step of the same cloned body wrote; a body whose log operation reads what its template operation wrote; forEach items/queries by reference inside another forEach (Go side).",
 		Gen: func(r *rand.Rand, tier string, idx int) Case {
 			switch idx % 8 {
 			case 0, 1, 2:
@@ -488,8 +597,13 @@ func init() {
 				case 1:
 					return c14Nested(r)
 				}
-				if r.Intn(3) == 0 {
+				switch r.Intn(5) {
+				case 0:
 					return c14CallNested(r)
+				case 1:
+					return c14BodyOrder(r)
+				case 2:
+					return c14ForEachRef(r)
 				}
 				return c14CallInLoop(r)
 			default:
